@@ -296,6 +296,12 @@ pub fn run(op: &str, case: &Value) -> Result<Value> {
             let p = a.pow(e);
             json!({"ok": {"mul": [fj(m.lower()), fj(m.upper())], "pow": [fj(p.lower()), fj(p.upper())]}})
         }
+        "bound_scale" => {
+            let a = ommx::Bound::new(jf(&case["a"][0])?, jf(&case["a"][1])?)?;
+            let k = jf(&case["k"])?;
+            let m = a * k;
+            json!({"ok": [fj(m.lower()), fj(m.upper())]})
+        }
         "evaluate_bound" => {
             let f: Function = msg(&case["f"])?;
             let mut bounds = ommx::Bounds::new();
